@@ -1108,6 +1108,10 @@ def fail_events(model: TopoModel):
                 ev.append(('fail', 'service-kth-interface', why, ty, tuple(g), b))
         for why, b in bads[:3]:
             ev.append(('fail', 'mirror-bad-to-interface', why, b))
+        # a link whose k-th interface handle went stale (its owner was removed after the handle was taken)
+        if len(free) >= 2:
+            for pos in (0, 1):
+                ev.append(('fail', 'link-kth-interface', pos, 'Patch', (model._pref(free[0]),), model._pref(free[-1])))
         for s in tops[:1]:
             for why, b in bads[:2]:
                 if why in ('connected', 'not-node-owned'):
@@ -1139,9 +1143,9 @@ def fail_events(model: TopoModel):
     else:
         fp = [model._pref(p) for p in free]
         if fp:
-            ev.append(('fail', 'link-stale-interface', 0, tuple(fp[:2])))
-            if len(fp) > 1:
-                ev.append(('fail', 'link-stale-interface', 1, tuple(fp[:2])))
+            if len(fp) > 1 and fp[0][0] != fp[-1][0]:
+                for pos in (0, 1):
+                    ev.append(('fail', 'link-kth-interface', pos, 'Patch', (fp[0],), fp[-1]))
             ev.append(('fail', 'link-bad-property', tuple(fp[:2])))
             ev.append(('fail', 'link-no-type', tuple(fp[:2])))
         links = sorted(model.t.links.keys())
@@ -1270,12 +1274,16 @@ def _do_fail(model: TopoModel, ev):
         model.port(*ev[2]).add_child_interface(name='subx', labels=Labels(vlan='998'), boot_script=BAD)
     elif kind == 'sub-on-shared-port':
         model.port(*ev[2]).add_child_interface(name='subx', labels=Labels(vlan='997'))
-    elif kind == 'link-stale-interface':
-        ifs = [model.port(*r) for r in ev[3]]
-        from fim.user.interface import Interface
-        ghost = Interface(name='ghost', node_id='id-no-such-interface', topo=t)
-        ifs.insert(ev[2], ghost) if ev[2] == 0 else ifs.append(ghost)
-        t.add_link(name='lx', node_id='id-lx', ltype=LinkType.Patch, interfaces=ifs)
+    elif kind == 'link-kth-interface':
+        _, _, pos, ty, goods, b = ev
+        ifs = [model.port(*g) for g in goods]
+        stale = model.port(*b)
+        if model.t.get_owner_node(stale).name in {g[0] for g in goods}:
+            raise _Skip()
+        _remove_owner_of(model, stale)            # a real API call; the handle taken before now dangles
+        model._stale_removed = True
+        ifs.insert(pos, stale) if pos == 0 else ifs.append(stale)
+        t.add_link(name='lx', node_id=nid('lx'), ltype=LinkType[ty], interfaces=ifs)
     elif kind == 'link-bad-property':
         t.add_link(name='lx', node_id='id-lx', ltype=LinkType.Patch, interfaces=[model.port(*r) for r in ev[2]], boot_script=BAD)
     elif kind == 'link-no-type':
